@@ -170,6 +170,8 @@ func C04(c *runner.Cfg) *report.Result {
 	res.Count("calls_with_non_ok_expectation", nonOKExpected.Load())
 	res.Count("handler_invocations", srvSide.enter.Load())
 	res.Count("subservice_calls_in_requests", srvSide.subcalls.Load())
+	res.Count("handler_results_handed_to_the_library", srvSide.resultsMade.Load())
+	res.Count("handler_results_released_by_the_library", srvSide.resultsFreed.Load())
 	res.Observe("hook_hits", hooks.Hits())
 	fk, fd := hooks.Failures()
 	for k, n := range fk {
